@@ -178,12 +178,27 @@ func (i *Interpreter) executeAssign(stmt AssignStatement, env *Environment) (int
 
 	// If variable exists in any scope (including parent), update it
 	// Otherwise, define a new variable in current scope
-	if env.Has(stmt.Target) {
+	// The module scope is the exception: it holds the functions, constants and
+	// imports shared by every request, so `$` on such a name inside a route or
+	// function declares a local that shadows it instead of overwriting it for
+	// all later requests.
+	if env.Has(stmt.Target) && !i.boundInModuleScope(stmt.Target, env) {
 		env.Set(stmt.Target, value)
 	} else {
 		env.Define(stmt.Target, value)
 	}
 	return value, nil
+}
+
+// boundInModuleScope reports whether name, looked up from env, resolves to a
+// binding of the module scope (globalEnv) and not to a local of the request.
+func (i *Interpreter) boundInModuleScope(name string, env *Environment) bool {
+	for e := env; e != nil; e = e.parent {
+		if e.HasLocal(name) {
+			return e == i.globalEnv
+		}
+	}
+	return false
 }
 
 // executeFieldAssign handles dot-notation field assignment like obj.field = value
